@@ -78,6 +78,24 @@ def closure_table(f, init_id):
 def direct_loop_form(f, init_id, tab, tlen):
     """(range, inserts, tables, blocks of the derivation insert) when the initialiser derives the map in a loop of its own"""
     b = f.bodies.get(init_id)
+    if b is not None and not b.loop_heads():
+        # `TABLE.iter().enumerate().map(|(a, c)| (*c, a)).collect()`: the same pairs, in table order
+        eb = ExprBuilder(b)
+        tname = tab.split("::")[-1]
+        coll = [t for _, t in b.calls() if (t["callee"].get("resolved") or "").endswith("Iterator::collect")]
+        if len(coll) == 1 and not any((t["callee"].get("resolved") or "").endswith("::insert") for _, t in b.calls()):
+            src = eb.operand(coll[0]["args"][0])
+            if src[0] == "call" and src[1].endswith("Iterator::map") and len(src[2]) == 2 and show(src[2][0]) == "enumerate(iter((&%s as &[char])))" % tname \
+                    and src[2][1][0] == "agg" and str(src[2][1][1]).startswith("closure:"):
+                cb = f.bodies.get(str(src[2][1][1])[len("closure:"):])
+                if cb is not None:
+                    ceb = ExprBuilder(cb)
+                    rets = ret_exprs(cb, ceb)
+                    if len(rets) == 1 and rets[0][0] == "agg" and rets[0][1] == "tuple" and len(rets[0][2]) == 2:
+                        k, v = rets[0][2]
+                        if show(k) == "*_2.1" and "_2.0" in show(v) and "_2.1" not in show(v):
+                            return (0, tlen), [("T[i]", "i", k, v)], {tab}, {-1}
+        return None, [], set(), set()
     if b is None or len(b.loop_heads()) != 1:
         return None, [], set(), set()
     loop = b.natural_loop(next(iter(b.loop_heads())))
@@ -560,10 +578,11 @@ def analyse_from_u8(f, b, discr, masks):
     return out
 
 
-def analyse_as_u8(f, b, discr, masks):
-    """-> list of 8 sets of attribute atoms each result bit depends on"""
+def analyse_as_u8(f, b, discr, masks, self_p=1, ice_p=2, depth=0):
+    """-> list of 8 sets of attribute atoms each result bit depends on.  self_p / ice_p: the parameters of `b` that hold the
+    attribute and the ice mode (as_u8 itself: 1 and 2; a helper it delegates to may take them in other positions)"""
     def sources(pj):
-        if pj["l"] == 1:
+        if pj["l"] == self_p:
             proj = pj.get("p", [])
             if len(proj) == 1 and proj[0] != "*" and proj[0][0] == "f":
                 nm = proj[0][2]
@@ -572,29 +591,62 @@ def analyse_as_u8(f, b, discr, masks):
                     return [frozenset([(tag, i)]) for i in range(w)]
             if not proj:
                 return None
-        if pj["l"] == 2:
+        if ice_p is not None and pj["l"] == ice_p:
             return [E] * 8
         return None
     by_id = {}
     for nm, (gm, sm) in masks.items():
         by_id["text_attribute::TextAttribute::is_" + nm] = gm
 
+    def origin(l):
+        """which parameter of `b` the local is a plain copy of"""
+        for _ in range(4):
+            if 1 <= l <= b.argc:
+                return l
+            ds = b.defs.get(l, [])
+            if len(ds) != 1 or ds[0][1] == "term":
+                return None
+            rv = b.blocks[ds[0][0]]["stmts"][ds[0][1]]["rv"]
+            pj = (rv["a"].get("copy") or rv["a"].get("move")) if rv["k"] == "use" else None
+            if pj is None or pj.get("p"):
+                return None
+            l = pj["l"]
+        return None
+
     def call_model(an, t, args, cdep):
         res = t["callee"].get("resolved") or ""
         if res in by_id and by_id[res] is not None:
             pj = t["args"][0].get("copy") or t["args"][0].get("move")
-            if pj is not None and pj["l"] == 1 and "p" not in pj:
+            if pj is not None and "p" not in pj and origin(pj["l"]) == self_p:
                 return [frozenset(("attr", i) for i in _mask_bits(by_id[res]))]
-            if pj is not None and "p" not in pj:
-                # a copy of self
-                for b0, k in b.defs.get(pj["l"], []):
-                    if k != "term":
-                        rv = b.blocks[b0]["stmts"][k]["rv"]
-                        if rv["k"] == "use" and (rv["a"].get("copy") or rv["a"].get("move") or {}).get("l") == 1:
-                            return [frozenset(("attr", i) for i in _mask_bits(by_id[res]))]
+            return None
+        # a helper of the crate that is handed (copies of) the attribute and the mode: its own dependencies
+        hb = f.bodies.get(res)
+        if hb is not None and hb.kind in ("fn", "method") and depth < 3 and res not in by_id and hb.argc == len(t["args"]):
+            pos = {}
+            for i, a_ in enumerate(t["args"]):
+                pj = a_.get("copy") or a_.get("move")
+                o_ = origin(pj["l"]) if (pj is not None and not pj.get("p")) else None
+                if o_ is None:
+                    return None
+                pos[i + 1] = o_
+            sp = [i for i, o_ in pos.items() if o_ == self_p]
+            ip_ = [i for i, o_ in pos.items() if ice_p is not None and o_ == ice_p]
+            if len(sp) == 1 and len(sp) + len(ip_) == len(pos):
+                r = analyse_as_u8(f, hb, discr, masks, sp[0], ip_[0] if ip_ else None, depth + 1)
+                if r is not None:
+                    w = gf_width(f, hb)
+                    return [frozenset(x) for x in (r + [set()] * w)[:w]]
         return None
-    an = BitDep(f, b, sources, call_model, _prune_on(b, 2, discr)).run()
+    an = BitDep(f, b, sources, call_model, _prune_on(b, ice_p, discr) if ice_p is not None else None).run()
     bits = an.env.get((0, ()))
     if bits is None:
         return None
+    if depth:
+        return [set(x) for x in bits]
     return [set(x) for x in (bits + [E] * 8)[:8]]
+
+
+def gf_width(f, hb):
+    ty = f.types[hb.locals[0]["t"]]
+    return {"u8": 8, "i8": 8, "u16": 16, "i16": 16, "u32": 32, "i32": 32, "u64": 64, "i64": 64, "usize": 64, "isize": 64, "bool": 1}.get(ty.get("n") or ty.get("s"), 32)
